@@ -374,3 +374,8 @@ func F64(name string) float64 {
 
 // Keccak: keccak256 (under the executor: concrete on concrete bytes, injective UF otherwise).
 func Keccak(b []byte) [32]byte { panic("zzverif.Keccak is only available under the symbolic executor") }
+
+// DeepCopy / Restore exist only under the symbolic executor (harness stand-ins for a
+// serialisation round trip); natively the real codec runs instead of the stand-ins.
+func DeepCopy(x interface{}) interface{} { panic("zzverif.DeepCopy is only available under the symbolic executor") }
+func Restore(dst, src interface{})      { panic("zzverif.Restore is only available under the symbolic executor") }
